@@ -10,6 +10,8 @@ import time
 
 VERIF = os.path.dirname(os.path.dirname(os.path.abspath(__file__)))
 SPEC = os.path.join(VERIF, 'spec')
+# outputs (evidence/, replays/) go under /verif unless a mutation-evaluation run redirects them
+OUT = os.environ.get('VERIF_OUT') or VERIF
 JAR = '/opt/veriftools/tla/tla2tools.jar:/opt/veriftools/tla/CommunityModules-deps.jar'
 
 
@@ -200,11 +202,11 @@ class Verdict:
             self.cov['samples'].append(s)
 
     def violation(self, what, replay_obj):
-        os.makedirs(os.path.join(VERIF, 'replays'), exist_ok=True)
+        os.makedirs(os.path.join(OUT, 'replays'), exist_ok=True)
         import hashlib
         blob = json.dumps(replay_obj, sort_keys=True, default=str)
         h = hashlib.sha1(blob.encode()).hexdigest()[:10]
-        path = os.path.join(VERIF, 'replays', f'{self.pid}-{h}.json')
+        path = os.path.join(OUT, 'replays', f'{self.pid}-{h}.json')
         with open(path, 'w') as f:
             json.dump({'property': self.pid, 'what': what, 'replay': replay_obj}, f, indent=1, default=str)
         self.violations.append((what, path))
@@ -235,8 +237,8 @@ class Verdict:
             cov['samples'] = ['(no sample recorded)']
         ev = {'property_id': self.pid, 'tier': self.tier, 'seed': self.seed, 'level': level, 'coverage': cov,
               'assumptions': self.assumptions, 'wall_s': round(wall, 2), 'violations': len(self.violations)}
-        os.makedirs(os.path.join(VERIF, 'evidence'), exist_ok=True)
-        with open(os.path.join(VERIF, 'evidence', f'{self.pid}.json'), 'w') as f:
+        os.makedirs(os.path.join(OUT, 'evidence'), exist_ok=True)
+        with open(os.path.join(OUT, 'evidence', f'{self.pid}.json'), 'w') as f:
             json.dump(ev, f, indent=1, default=str)
         for fid, (n, what) in sorted(self.known_hits.items()):
             print(f'KNOWN-FINDING: property={self.pid} {fid} {what} (hits={n})')
